@@ -5,6 +5,7 @@ import (
 	"encoding/hex"
 	"errors"
 	"fmt"
+	"io"
 	"os"
 	"strconv"
 	"strings"
@@ -199,65 +200,10 @@ func runCaseOnce(c scase) obs {
 		case 'b':
 			vd.VerifSetLastSent(time.Now().Add(time.Hour))
 		}
-		res := ""
-		func() {
-			defer func() {
-				if r := recover(); r != nil {
-					res = "P"
-				}
-			}()
-			switch k.kind {
-			case "ping":
-				if err := vd.Ping(); err != nil {
-					res = errClass(err)
-				} else {
-					res = "ok"
-				}
-			case "devid":
-				if v, err := vd.GetDeviceId(); err != nil {
-					res = errClass(err)
-				} else {
-					res = "n" + strconv.FormatUint(uint64(v), 10)
-				}
-			case "raw":
-				if v, err := vd.VeCommandGet(uint16(k.addr)); err != nil {
-					res = errClass(err)
-				} else {
-					res = "h" + hex.EncodeToString(v)
-					o.kept = append(o.kept, v)
-					o.keptHex = append(o.keptHex, hex.EncodeToString(v))
-				}
-			case "uint":
-				if v, err := vd.GetUint(uint16(k.addr)); err != nil {
-					res = errClass(err)
-				} else {
-					res = "n" + strconv.FormatUint(v, 10)
-				}
-			case "int":
-				if v, err := vd.GetInt(uint16(k.addr)); err != nil {
-					res = errClass(err)
-				} else {
-					res = "n" + strconv.FormatInt(v, 10)
-				}
-			case "str":
-				if v, err := vd.GetString(uint16(k.addr)); err != nil {
-					res = errClass(err)
-				} else {
-					res = "h" + hex.EncodeToString([]byte(v))
-				}
-			case "cmd":
-				if v, err := vd.VeCommand(vedirect.VeCommand(k.cmd), uint16(k.addr)); err != nil {
-					res = errClass(err)
-				} else {
-					res = "h" + hex.EncodeToString(v)
-					o.kept = append(o.kept, v)
-					o.keptHex = append(o.keptHex, hex.EncodeToString(v))
-				}
-			}
-		}()
+		res := execCall(vd, k, &o)
 		o.results = append(o.results, res)
 		o.marks = append(o.marks, len(p.Delivered))
-		if res == "P" {
+		if res == "P" || res == "H" {
 			break
 		}
 	}
@@ -269,6 +215,122 @@ func runCaseOnce(c scase) obs {
 	o.lines = il.lines
 	o.dbg = dl.n
 	return o
+}
+
+func execCall(vd *vedirect.Vedirect, k scall, o *obs) (res string) {
+	defer func() {
+		if r := recover(); r != nil {
+			if _, ok := r.(sport.BudgetExceeded); ok {
+				res = "H" // unbounded reads after end of data: the call hangs on a real port
+			} else {
+				res = "P"
+			}
+		}
+	}()
+	switch k.kind {
+	case "ping":
+		if err := vd.Ping(); err != nil {
+			res = errClass(err)
+		} else {
+			res = "ok"
+		}
+	case "devid":
+		if v, err := vd.GetDeviceId(); err != nil {
+			res = errClass(err)
+		} else {
+			res = "n" + strconv.FormatUint(uint64(v), 10)
+		}
+	case "raw":
+		if v, err := vd.VeCommandGet(uint16(k.addr)); err != nil {
+			res = errClass(err)
+		} else {
+			res = "h" + hex.EncodeToString(v)
+			if o != nil {
+				o.kept = append(o.kept, v)
+				o.keptHex = append(o.keptHex, hex.EncodeToString(v))
+			}
+		}
+	case "uint":
+		if v, err := vd.GetUint(uint16(k.addr)); err != nil {
+			res = errClass(err)
+		} else {
+			res = "n" + strconv.FormatUint(v, 10)
+		}
+	case "int":
+		if v, err := vd.GetInt(uint16(k.addr)); err != nil {
+			res = errClass(err)
+		} else {
+			res = "n" + strconv.FormatInt(v, 10)
+		}
+	case "str":
+		if v, err := vd.GetString(uint16(k.addr)); err != nil {
+			res = errClass(err)
+		} else {
+			res = "h" + hex.EncodeToString([]byte(v))
+		}
+	case "cmd":
+		if v, err := vd.VeCommand(vedirect.VeCommand(k.cmd), uint16(k.addr)); err != nil {
+			res = errClass(err)
+		} else {
+			res = "h" + hex.EncodeToString(v)
+			if o != nil {
+				o.kept = append(o.kept, v)
+				o.keptHex = append(o.keptHex, hex.EncodeToString(v))
+			}
+		}
+	}
+	return
+}
+
+// lookupPort replays one logged (tx, rx) pair: the harness's own lookup port
+type lookupPort struct {
+	table map[string]string
+	buf   []byte
+}
+
+func (l *lookupPort) Write(b []byte) (int, error) {
+	if rx, ok := l.table[string(b)]; ok {
+		l.buf = append(l.buf, rx...)
+	}
+	return len(b), nil
+}
+func (l *lookupPort) Read(b []byte) (int, error) {
+	if len(l.buf) == 0 {
+		return 0, io.EOF
+	}
+	n := copy(b, l.buf)
+	l.buf = l.buf[n:]
+	return n, nil
+}
+func (l *lookupPort) Close() error { return nil }
+func (l *lookupPort) Flush() error { l.buf = nil; return nil }
+
+// replays: for every typed call completed in a single exchange, replay its logged pair
+func replays(c scase, o obs) []string {
+	var typed []scall
+	for i, k := range c.calls {
+		if i >= len(o.results) {
+			break
+		}
+		if k.kind != "raw" && k.kind != "cmd" {
+			typed = append(typed, k)
+		}
+	}
+	if len(typed) != len(o.lines) {
+		return nil
+	}
+	rp := make([]string, len(typed))
+	for i, k := range typed {
+		rp[i] = "-"
+		tx, rx, ok := parseIoLine(o.lines[i])
+		if !ok || strings.Count(tx, "\n") != 1 || !strings.HasSuffix(tx, "\n") {
+			continue
+		}
+		lp := &lookupPort{table: map[string]string{tx: rx}}
+		vd, _ := vedirect.NewVedirect(lp, vedirect.Config{})
+		rp[i] = execCall(vd, k, nil)
+	}
+	return rp
 }
 
 func expectedFlushes(c scase) int {
@@ -318,6 +380,11 @@ func formatObs(c scase, o obs) string {
 		ls = []string{"-"}
 	}
 	sb.WriteString(" L=" + strings.Join(ls, ","))
+	if c.cfg&2 != 0 {
+		if rp := replays(c, o); len(rp) > 0 {
+			sb.WriteString(" RP=" + strings.Join(rp, ";"))
+		}
+	}
 	if o.altered {
 		sb.WriteString(" ALTERED=1")
 	}
@@ -341,7 +408,15 @@ func runScript() {
 		c := parseCase(line)
 		var o obs
 		for try := 0; try < 3; try++ {
-			o = runCaseOnce(c)
+			done := make(chan obs, 1)
+			go func() { done <- runCaseOnce(c) }()
+			select {
+			case o = <-done:
+			case <-time.After(20 * time.Second):
+				fmt.Fprintf(out, "%s R=H W=- nw=0 nr=0 nf=0 re=0 D=- dm=0 L=- WATCHDOG=1\n", c.id)
+				out.Flush()
+				os.Exit(3)
+			}
 			// a scheduler stall of >100ms inside a call would add a flush; re-run then
 			if o.port.NFlushes == expectedFlushes(c) || containsPanic(o.results) {
 				break
@@ -353,7 +428,7 @@ func runScript() {
 
 func containsPanic(rs []string) bool {
 	for _, r := range rs {
-		if r == "P" {
+		if r == "P" || r == "H" {
 			return true
 		}
 	}
